@@ -24,6 +24,12 @@ M = [
     ("C15", "seeded C02-m2: next member only probed when input is left", "break", "util/compress.cc",
      "          ReplaceThis(ReadFactory(file_.release(), ReadCount(thunk), back_.NextInput(), back_.AvailInput(), true), thunk);",
      "          if (back_.AvailInput()) {\n            ReplaceThis(ReadFactory(file_.release(), ReadCount(thunk), back_.NextInput(), back_.AvailInput(), true), thunk);\n          } else {\n            ReplaceThis(new Complete(), thunk);\n          }"),
+    ("C15", "seeded C15-m3: write() drains a 'full' buffer with buf_size_", "break", "util/compress.cc",
+     "      while (compressor_.AvailInput()) {\n        if (!compressor_.EnoughOutput()) {\n          writer_.write(buf_.get(), compressor_.NextOutput() - reinterpret_cast<const uint8_t*>(buf_.get()));",
+     "      while (compressor_.AvailInput()) {\n        if (!compressor_.EnoughOutput()) {\n          writer_.write(buf_.get(), buf_size_);"),
+    ("C15", "same in flush(): drains with buf_size_", "break", "util/compress.cc",
+     "      do {\n        if (!compressor_.EnoughOutput()) {\n          writer_.write(buf_.get(), compressor_.NextOutput() - reinterpret_cast<const uint8_t*>(buf_.get()));",
+     "      do {\n        if (!compressor_.EnoughOutput()) {\n          writer_.write(buf_.get(), buf_size_);"),
     ("C15", "revert fix: zlib input cursor uninitialised", "break", "util/compress.cc",
      "      stream_.next_in = Z_NULL;\n      stream_.avail_in = 0;\n", ""),
     ("C15", "revert fix: bzip2 stall test", "break", "util/compress.cc",
